@@ -324,6 +324,7 @@ def problems():
     out.extend(reused_wrappers())
     out.extend(traced_outcomes())
     out.extend(chained_exceptions())
+    out.extend(traced_after_the_scope_was_left())
     return out
 
 
@@ -397,6 +398,63 @@ def traced_outcomes():
                 out.append(f"{label} coroutine that spawns a task: order {order}")
     asyncio.run(spawning())
     return out[:3]
+
+
+def traced_after_the_scope_was_left():
+    """"called from arbitrary scope nestings": also from a task that was started inside a scope and outlives it (a plain asyncio
+    task, the function task of `timeout`, the shared invocation of the async cache) - the scope it inherited is completed by
+    then; traced / wrap_async / asynchronous still give the function's own result and exception."""
+    out = []
+    if not __debug__:
+        return out
+
+    class Boom3(Exception):
+        pass
+    boom = Boom3("late")
+
+    @traced
+    def sync_value(a):
+        return a * 2
+
+    @traced
+    async def async_value(a):
+        return a + 1
+
+    @traced
+    async def async_fails(a):
+        raise boom
+
+    async def prog():
+        gate = asyncio.Event()
+        got = {}
+
+        async def late():
+            await gate.wait()
+            for name, call in (("traced sync", lambda: sync_value(4)), ("traced async", lambda: async_value(4)),
+                               ("traced async raising", lambda: async_fails(4)), ("wrap_async", lambda: wrap_async(lambda a: a * 3)(4)),
+                               ("asynchronous", lambda: asynchronous(lambda a: a * 5)(4))):
+                try:
+                    r = call()
+                    if asyncio.iscoroutine(r) or asyncio.isfuture(r):
+                        r = await r
+                    got[name] = ("ret", r)
+                except BaseException as e:  # noqa
+                    got[name] = ("exc", e)
+        async with ctx.scope("origin"):
+            t = asyncio.ensure_future(late())
+            await asyncio.sleep(0)
+        for _ in range(3):
+            await asyncio.sleep(0)
+        gate.set()
+        await t
+        want = {"traced sync": ("ret", 8), "traced async": ("ret", 5), "traced async raising": ("exc", boom),
+                "wrap_async": ("ret", 12), "asynchronous": ("ret", 20)}
+        for name, w in want.items():
+            g = got.get(name)
+            if g is None or g[0] != w[0] or (g[1] is not w[1] if w[0] == "exc" else g[1] != w[1]):
+                out.append(f"{name} called from a task that outlived the scope it was started in: outcome {g!r}, the function's own is {w!r}")
+    asyncio.run(prog())
+    return out
 
 
 def chained_exceptions():
